@@ -10,7 +10,7 @@ class C16(Prop):
     proof_modules = ['DznProofs.C16']
     level_rule = ('random histories: <=6 parser instances, <=30 ops (new with/without document, load, '
                   'process repeated 1-4 times), documents shared between instances, valid and mutated; '
-                  'every result kept alive and re-dumped at the end; non-trivial = a history with a '
+                  'long-lived instances (150-260 load/process rounds, two thirds refused inside nested namespaces); every result kept alive and re-dumped at the end; non-trivial = a history with a '
                   'repeated process() or >=2 instances; distinct = distinct history')
 
     def streams(self, rng, tier):
